@@ -8,10 +8,12 @@ spec/EvmProof.tla; driver harness/cmd/vd-posa (proof-table).
                filled through its real SyncGenesisHeader / SyncBlockHeader (PoSA: real seals; eth: seal hook).
 Verdict: accept/reject must equal the table ("exactly when"), the returned message must be the submitted one.
 """
+import concurrent.futures
 import json
 
 # (G0, Best, Wait, ForkAt, DepositAt, LeadZ) - must equal the constants of spec/EvmProof_<name>.cfg
-CFGS = {"w3": (200, 206, 3, 203, 203, 0), "w1": (200, 206, 1, 203, 203, 1), "w2": (200, 206, 2, 204, 205, 0), "hdr": (200, 206, 1, 203, 203, 1)}
+CFGS = {"w3": (200, 206, 3, 203, 203, 0), "w1": (200, 206, 1, 203, 203, 1), "w2": (200, 206, 2, 204, 205, 0), "w12": (200, 214, 12, 203, 201, 0),
+        "hdr": (200, 206, 1, 203, 203, 1)}
 ROUTERS_QUICK = ["eth", "bsc", "heco"]
 ROUTERS_ALL = ["eth", "bsc", "bytom", "heco", "hsc", "pixie", "msc", "bor"]
 UNCOVERED = []
@@ -52,26 +54,29 @@ def run(ctx):
         ctx.cov["distinct_nontrivial"] = 2
         ctx.sample(rp["row"])
         return ctx.finish(rule="single replayed row (all world variants up to the failing one)")
-    routers = ROUTERS_QUICK if q else ROUTERS_ALL
-    names = ["w3", "w1"] if q else ["w3", "w1", "w2"]
-    variants = 3 if q else 12
-    for name in names:
-        rows = ctx.gen("EvmProof", "EvmProof_%s.cfg" % name, "ROW", timeout=1200)
+    # every router in both tiers (each handler has its own copy of the confirmation test), every BlocksToWait in
+    # {1, 2, 3, 12}: the height dimension of each table is relative to its Wait (head - height in wait-3 .. wait+1)
+    routers = ROUTERS_ALL
+    names = ["w1", "w2", "w3", "w12", "hdr"]
+    variants = 2 if q else 12
+    with concurrent.futures.ThreadPoolExecutor(max_workers=len(names)) as ex:
+        tables = list(ex.map(lambda n: ctx.gen("EvmProof", "EvmProof_%s.cfg" % n, "ROW", timeout=1200, heap="4g"), names))
+    for name, rows in zip(names, tables):
         if len(rows) < 1000:
             ctx.fail("too few rows from EvmProof_%s.cfg: %d" % (name, len(rows)))
         acc = [r for r in rows if r["acc"]]
         if not acc or len(acc) == len(rows):
             ctx.fail("vacuous table %s" % name)
+        if name != "hdr":
+            g0, best, wait = CFGS[name][0], CFGS[name][1], CFGS[name][2]
+            dists = set(best - r["r"]["h"] for r in rows)
+            need = set(range(max(0, wait - 3), wait + 2))
+            if not need <= dists:
+                ctx.fail("table %s lacks the confirmation-boundary rows head-height in %s" % (name, sorted(need - dists)))
         ctx.sample({"cfg": name, "accepted_row": acc[0], "rejected_row": [r for r in rows if not r["acc"] and r["true"] and r["conf"]][0]})
-        for router in routers:
+        for router in (["quorum"] if name == "hdr" else routers):
             _table(ctx, b, router, name, rows, variants, stats)
-    if not q:
-        # quorum: the header travels with the claim (EvmProof Mode = "header")
-        rows = ctx.gen("EvmProof", "EvmProof_hdr.cfg", "ROW", timeout=1200)
-        if len(rows) < 1000 or not [r for r in rows if r["acc"]]:
-            ctx.fail("bad table from EvmProof_hdr.cfg: %d rows" % len(rows))
-        _table(ctx, b, "quorum", "hdr", rows, variants, stats)
-        routers = routers + ["quorum"]
+    routers = routers + ["quorum"]
     ctx.cov["evaluations"] = stats["evaluations"]
     ctx.cov["distinct_nontrivial"] = max(stats["classes"].values())
     return ctx.finish(rule="P-TABLE: one row per claim descriptor (height in {below genesis, around the confirmation boundary, head, head+1} x "
@@ -79,7 +84,7 @@ def run(ctx):
                       "12 storage-proof kinds (incl. slots whose value is the last 1/2/31 bytes of the hash, 33 bytes ending in it, empty) x 2 messages; "
                       "Keccak(M) with and without a leading zero byte), each concretized in %d random worlds; distinct_nontrivial = distinct "
                       "(height class, world, kinds, message, verdict) classes other than the plain valid claim." % variants,
-                      extra={"routers_covered": routers, "routers_uncovered": UNCOVERED + ([] if not q else ["bytom, hsc, pixie, msc, bor, quorum: thorough tier"])},
+                      extra={"routers_covered": routers, "routers_uncovered": UNCOVERED, "blocks_to_wait": [1, 2, 3, 12]},
                       assumptions=["confirmation rule as coded: head - height >= BlocksToWait - 1 (BlocksToWait >= 1)",
                                    "the storage slot is not part of the property: any slot of the registered contract holding Keccak(message) is accepted",
                                    "keccak / MPT hashing are collision resistant (free term algebra in the model, real keccak in the driver)",
